@@ -576,13 +576,15 @@ static void stft_refill(Json& js, vh::Rng& rng) {
 
 static void run_stft(Json& js, vh::Rng& rng, long budget) {
     static const int NF[] = {8, 12, 16, 20, 32, 64, 100, 128, 256, 512, 1024};
-    long done = 0;
+    long done = 0, iter = 0;
     while (done < budget) {
         stft_refill(js, rng);
         const int nfft = NF[rng.range(0, 10)];
         const int wk = (int)rng.range(0, 5);
         const bool sym = rng.coin();
-        const int nwin = nfft;   // the library windows the first nwin samples of an nfft frame; use full frames
+        // full frames, and (one case in three) a window shorter than the transform: the first nwin samples of each zero-padded
+        // nfft frame are windowed, the hop is counted in window samples
+        const int nwin = (++iter % 3 == 0) ? std::max(2, (rng.coin() ? nfft / 2 : (int)rng.range(nfft / 2, nfft - 1))) : nfft;
         const arr_real win = make_window(wk, nwin, sym);
         // every overlap for small windows; COLA candidates (hop divides nwin) above
         std::vector<int> overlaps;
@@ -623,7 +625,7 @@ static void run_stft(Json& js, vh::Rng& rng, long budget) {
                     std::vector<arr_cmplx> Y;
                     arr_real xr;
                     // the convenience overloads (periodic Hann, overlap nfft/2) stand for exactly these explicit arguments
-                    const bool conv = std::string(WN[wk]) == "hann" && !sym && ov == nfft / 2;
+                    const bool conv = std::string(WN[wk]) == "hann" && !sym && ov == nfft / 2 && nwin == nfft;
                     const char* o = vh::outcome([&] {
                         if (conv) {
                             Y = stft(x, nfft, range);
@@ -673,7 +675,7 @@ static void run_stft(Json& js, vh::Rng& rng, long budget) {
                             ++wpos;
                         }
                     }
-                    js.begin("Stft").num("nfft", nfft).str("win", WN[wk]).boolean("sym", sym).num("overlap", ov).num("method", meth)
+                    js.begin("Stft").num("nfft", nfft).num("nwin", nwin).str("win", WN[wk]).boolean("sym", sym).num("overlap", ov).num("method", meth)
                       .num("range", rg).num("nx", nx).str("o", o).num("nseg", nseg).num("bins_ok", bins_ok)
                       .num("outlen", xr.size()).boolean("finite", finite).num("wpos", wpos)
                       .num("err_milli", milli(err, 1.0)).end();
